@@ -95,6 +95,8 @@ DerBad ==
             <<"never-collapses-a-referenced-node", \A v \in gone : \A i \in DOMAIN g.tr : g.tr[i][2] = ConceptRole \/ g.tr[i][3] # v>>,
             <<"never-collapses-a-node-with-another-relation", \A v \in gone : Len(Others(g, v)) = 2>>,
             <<"only-dereifiable-concepts", \A v \in gone : InstIdx(g, v) # 0 /\ Dereifiable(M, g.tr[InstIdx(g, v)][3])>>,
+            \* a node is a reification only if its two relations are the argument roles the table pairs with its concept
+            <<"collapses-only-what-the-table-describes", gone \subseteq (Sources(g) \ Sources(DereifyEdges(g, M)))>>,
             <<"other-triples-kept", SelectSeq(g.tr, LAMBDA t : t[1] \notin gone) = SelectSeq(h.tr, LAMBDA t : InSeq(t, g.tr))>>,
             <<"one-triple-per-collapsed-node", Len(h.tr) = Len(g.tr) - 2 * Cardinality(gone)>> >>, 1)
 Init == tid \in 1..Len(Traces) /\ k = 0 /\ verdict = <<"pending", "">> /\ exact = TRUE
